@@ -132,6 +132,13 @@ type state struct {
 	ops       [MaxTasks + 1]uint64
 	noPreempt [MaxTasks + 1]int32
 	aborting  [MaxTasks + 1]bool // an abort fired in the task's current operation and has not been acknowledged
+	// per-operation yield budget (slot MaxTasks = the single caller outside a
+	// simulation): an operation that passes more yield points than this is cut
+	// off like an abort. Termination is C02's subject; the budget only keeps a
+	// non-terminating library call from wedging a check.
+	opBudget [MaxTasks + 1]uint64
+	opCount  [MaxTasks + 1]uint64
+	opOver   [MaxTasks + 1]bool
 	pathHash  [MaxTasks + 1]uint64
 	switches  uint64
 
@@ -402,10 +409,44 @@ func kindOf(site int32) uint8 {
 //
 //go:norace
 func Yield(site int32) {
-	if !s.active || s.inSample {
+	if !s.active {
+		if s.opBudget[MaxTasks] != 0 {
+			s.opCount[MaxTasks]++
+			if s.opCount[MaxTasks] > s.opBudget[MaxTasks] {
+				s.opOver[MaxTasks] = true
+				panic(Abort{-1}) // raised again at every yield until the harness disarms
+			}
+		}
+		return
+	}
+	if s.inSample {
 		return
 	}
 	yieldKind(site, kindOf(site), true)
+}
+
+// ArmOpBudget starts counting the yield points of the operation the caller is
+// about to run; DisarmOpBudget stops and reports whether the budget was
+// exceeded (the operation was then cut off with a panic(Abort)).
+//
+//go:norace
+func ArmOpBudget(n uint64) {
+	i := int32(MaxTasks)
+	if s.active {
+		i = s.cur
+	}
+	s.opBudget[i], s.opCount[i], s.opOver[i] = n, 0, false
+}
+
+//go:norace
+func DisarmOpBudget() bool {
+	i := int32(MaxTasks)
+	if s.active {
+		i = s.cur
+	}
+	over := s.opOver[i]
+	s.opBudget[i], s.opCount[i], s.opOver[i] = 0, 0, false
+	return over
 }
 
 // HarnessYield is a scheduling point issued by harness code (operation
@@ -460,6 +501,15 @@ func yieldKind(site int32, kind uint8, allowFault bool) {
 	// for String/Error methods), so it is raised again at every later yield.
 	if allowFault && s.aborting[me] && s.noPreempt[me] == 0 {
 		panic(Abort{me})
+	}
+	if s.opBudget[me] != 0 {
+		s.opCount[me]++
+		if s.opCount[me] > s.opBudget[me] && s.noPreempt[me] == 0 {
+			s.opOver[me] = true
+			s.aborting[me] = true
+			logEv(EvAbort, me, -2, site)
+			panic(Abort{me})
+		}
 	}
 	for i := range s.faults {
 		f := &s.faults[i]
